@@ -6808,6 +6808,13 @@ def debug_dump_datatree_graph(v: object, out_name: str = "dtree"):
 
 def main(): # pragma: no cover
     try:
+        _main()
+    except RecursionError:
+        print("Compile error: the program is nested too deeply, or contains a literal or repeat too long, for this compiler (recursion limit reached)", file=sys.stderr)
+        exit(5)
+
+def _main(): # pragma: no cover
+    try:
         input_file, program_name = ProgramData.load_commandline_flags(sys.argv[1:])
     except RuntimeError as e:
         print(str(e), file=sys.stderr)
